@@ -17,8 +17,11 @@ from .. import tracecheck as T
 PID = "C15"
 
 
-def consts(objs, nstmt, maxruns, variant, *, binding="perobject", reset=True, gran="stmt", hist=False,
-           registry="perrun", args=("A1",)):
+ACCS = ("comments", "block_comments", "statement")
+
+
+def consts(objs, nstmt, maxruns, variant, *, binding="perobject", reset=ACCS, gran="stmt", hist=False,
+           registry="perrun", args=("A1",), leaves=("comments",)):
     v = L.VARIANTS[variant]
     q = lambda xs: C.tla_set(['"%s"' % x for x in xs])
     return dict(Obj=q(objs), NStmt=nstmt, MaxRuns=maxruns, Args=q(args),
@@ -26,7 +29,7 @@ def consts(objs, nstmt, maxruns, variant, *, binding="perobject", reset=True, gr
                 BadLast=q([o for o in v["BadLast"] if o in objs]),
                 ForeignAlter=q([o for o in v["ForeignAlter"] if o in objs]),
                 Binding='"%s"' % binding, Registry='"%s"' % registry,
-                ResetPerRun="TRUE" if reset else "FALSE", Granularity='"%s"' % gran,
+                ResetSet=q(reset), Leaves=q(leaves), Granularity='"%s"' % gran,
                 WithHist="TRUE" if hist else "FALSE")
 
 
@@ -51,7 +54,7 @@ def _replay_task(task):
     progs = {o: L.programme(o, nstmt, variant) for o in objs}
     runs_args = {o: [L.ARGS[a] for a in runs[o]] for o in objs}
     outs, events, drift = L.replay_schedule(hist, progs, runs_args)
-    return outs, events, drift
+    return C.jnorm(outs), events, drift
 
 
 def _free_task(task):
@@ -59,7 +62,7 @@ def _free_task(task):
     progs = {o: L.programme(o, nstmt, variant) for o in objs}
     runs_args = {o: [{}] * nruns for o in objs}
     outs, events = L.free_run(progs, runs_args)
-    return outs, events
+    return C.jnorm(outs), events
 
 
 def solo_table(objs, nstmt, variants, arg_names):
@@ -163,7 +166,7 @@ def run(tier, seed):
         if key not in solo_ev:
             progs = {o: L.programme(o, ns, v) for o in objs}
             solo_ev[key] = L.solo_trace_tables(progs, {o: [{}] for o in objs})
-        traces.append((key, mr, events))
+        traces.append((key, mr, events, False))
     if len(samples) < 3 and meta:
         for objs, ns, mr, v, gran, b in meta[:2]:
             samples.append({"schedule": [f"{s['a']}({s['o']})" for s in b["hist"]], "spec_obs": b["obs"],
@@ -184,23 +187,28 @@ def run(tier, seed):
                 if got != want:
                     V.mismatch({"kind": "free-threads", "object": o, "run": i + 1, "objects": objs, "variant": v,
                                 "expected_solo": _short(want), "observed": _short(got)})
-        traces.append(((tuple(objs), ns, v), nr, events))
+        traces.append(((tuple(objs), ns, v), nr, events, True))
 
     # ---- 6. code -> spec: TLC validates every recorded execution against the contract ---------------
     batches = {}
-    for key, mr, events in traces:
+    for key, mr, events, free in traces:
         objs, ns, v = key
         st = solo_ev[key]
         rec = {"solo": {o: [did(x) for x in st[o]["stmts"]] + [0] * (ns + 1) for o in objs},
                "solorun": {o: (did(st[o]["run"][0]) if st[o]["run"] else 0) for o in objs},
-               "ev": L.to_trace(events, did)}
+               "ev": L.to_trace(events, did), "free": free}
         batches.setdefault((objs, ns, mr, v), []).append(rec)
     n_valid = 0
     drift_rej = 0
+    drift_notes = []
     for (objs, ns, mr, v), trs in sorted(batches.items()):
         cs = consts(list(objs), ns, mr, v)
         for strict in (False, True):
-            acc, rej, r = T.validate("TraceLifecycle", trs, cs, strict=strict)
+            # internal fields (owner of the PLY globals) are only meaningful when events are serialised by the
+            # scheduler: in free-running threads the rebinding and its event are not atomic
+            use = trs if not strict else [t for t in trs if not t["free"]]
+            acc, rej, r = T.validate("TraceLifecycle", use, cs, strict=strict)
+            trs_used = use
             if not strict:
                 n_valid += len(acc)
                 states += r.distinct
@@ -213,7 +221,13 @@ def run(tier, seed):
                                 "prefix": [f"{e['event']}({e['o']})" for e in tr["ev"][:p["line"]]] if tr and p.get("line") else None})
             else:
                 drift_rej += len(rej)
-    cov["model_drift"] = {"scheduler_notes": n_drift, "strict_only_rejections": drift_rej}
+                for p in rej[:3]:
+                    tr = trs_used[p["tid"] - 1] if p.get("tid") else None
+                    drift_notes.append({"objects": list(objs), "variant": v, "line": p.get("line"),
+                                        "event": tr["ev"][p["line"] - 1] if tr and p.get("line") else None,
+                                        "state": {k: p.get(k) for k in ("pc", "sidx", "gLexer", "gParse")},
+                                        "free_running": tr.get("free", False) if tr else None})
+    cov["model_drift"] = {"scheduler_notes": n_drift, "strict_only_rejections": drift_rej, "notes": drift_notes[:6]}
 
     # ---- 7. the binding itself: a corrupted trace must be rejected -------------------------------------
     (objs, ns, mr, v), trs = sorted(batches.items())[0]
